@@ -31,7 +31,9 @@ RULE = ("random systems: 1-3 species x 1-3 environments; density / chstt scalar 
         "an explicitly falsy entry (False / 0 / 0.0) for a used environment AND a truthy 'default' (also after an edit); spaces built with OMITTED constructor arguments (every 4th system omits the grid cell "
         "volume under a non-µm space unit; cell_env / w,h,d / boundary conditions / node volume and environment omitted at random; "
         "constructor and rdspace_from_dict routes) against the documented defaults; copy() histories (b = a.copy(), network.copy(), space.copy(); "
-        "writes / species edits + regeneration on one, both re-inspected against their own expected content); sharing: "
+        "writes / species edits + regeneration on one, both re-inspected against their own expected content); refused-assignment histories (space with an environment index beyond the network's list / wrong type, network, state, "
+        "chemostats, units_system, per-entry setters with bad values: after every refusal all entries are re-read and the defaults "
+        "regenerated against the unchanged expectation); sharing: "
         "systems built from another system's arrays / the caller's ndarrays (constructor and property setters), a setter on one "
         "must change one entry of that system and nothing else, edits of the caller's arrays must not leak.  Non-trivial: more than one cell or "
         "species and a non-zero density somewhere; distinct by the whole description")
@@ -914,6 +916,133 @@ def run_copies(ctx, desc, idx):
     inspect("a")
 
 
+def run_refusals(ctx, desc, idx):
+    """refused-assignment histories: after EVERY assignment / call that raises, the system must be exactly as before:
+    every entry is re-read through the getters, the arrays are compared, and the defaults are regenerated and compared
+    with the unchanged expectation"""
+    import numpy as np
+    from strengths import (RDSystem, RDGridSpace, RDGraphSpace, RDGraphSpaceNode, UnitsSystem, UnitArray, UnitValue)
+    rng = ctx.rng
+    if "state_override" in desc or "chem_override" in desc:
+        return
+    nsp, n = len(desc["species"]), desc["n"]
+    nenv = len(desc["envs"])
+    if not all(0 <= cell_env_vol_si(desc, c)[0] < nenv for c in range(n)):
+        return
+    try:
+        a = build_real(desc)
+    except Exception:  # noqa
+        return
+    st, ch = {}, {}
+    history = []
+    labels = [sp["label"] for sp in desc["species"]]
+
+    def inspect(after):
+        case = {"desc": desc, "kind": "refusals", "history": list(history)}
+        want_s = [st.get(s_ * n + c_, expected_state_si(desc, s_, c_)) for s_ in range(nsp) for c_ in range(n)]
+        want_c = [ch.get(s_ * n + c_, expected_chem(desc, s_, c_)) for s_ in range(nsp) for c_ in range(n)]
+        try:
+            if a.space.size() != n or a.network.nspecies() != nsp or a.state_size() != n * nsp:
+                raise ValueError("space / network sizes changed: %d cells, %d species" % (a.space.size(), a.network.nspecies()))
+            us = a.state.units.sys
+            f = si_factor((us.space, us.time, us.quantity), QTYD)
+            got_s = [frac(a.get_state(labels[s_], c_).value) * f for s_ in range(nsp) for c_ in range(n)]
+            got_c = [int(a.get_chemostat(s_, c_)) for s_ in range(nsp) for c_ in range(n)]
+            arr_s, arr_c = state_si(a), [int(v) for v in a.chemostats]
+        except Exception as e:  # noqa
+            ctx.violation("refusal-aftermath:raises", "after the refused %s the system can no longer be read: %s: %s"
+                          % (after, type(e).__name__, str(e)[:120]), case, impl=type(e).__name__, expected="unchanged system")
+            return False
+        ok_s = len(got_s) == len(want_s) and all((close(g, w_, rel=1e-9) if w_ != 0 else g == 0) for g, w_ in zip(got_s, want_s)) \
+            and len(arr_s) == len(want_s) and all((close(g, w_, rel=1e-9) if w_ != 0 else g == 0) for g, w_ in zip(arr_s, want_s))
+        if not ok_s or got_c != want_c or arr_c != want_c:
+            ctx.violation("refusal-aftermath:content", "after the refused %s the system's state / chemostat map differs from before" % after, case,
+                          impl={"state_si": [float(v) for v in arr_s], "chemostats": arr_c},
+                          expected={"state_si": [float(v) for v in want_s], "chemostats": want_c})
+            return False
+        return True
+
+    def regenerate(after):
+        case = {"desc": desc, "kind": "refusals", "history": list(history)}
+        try:
+            a.set_default_state()
+            a.set_default_chemostats()
+        except Exception as e:  # noqa
+            ctx.violation("refusal-aftermath:regenerate", "after the refused %s, set_default_state / set_default_chemostats raise %s: %s"
+                          % (after, type(e).__name__, str(e)[:120]), case, impl=type(e).__name__, expected="regenerated defaults")
+            return False
+        st.clear()
+        ch.clear()
+        history.append(["set_default_state(); set_default_chemostats()"])
+        return inspect(after + " + regeneration")
+
+    def bad_space(kind):
+        bad_env = nenv + rng.randint(0, 2)
+        if kind == "same-size":
+            m = n
+        else:
+            m = n + rng.randint(1, 3)
+        if rng.random() < 0.5:
+            envs = [rng.randrange(nenv) for _ in range(m)]
+            envs[rng.randrange(m)] = bad_env
+            return RDGridSpace(w=m, h=1, d=1, cell_env=envs)
+        nodes = [RDGraphSpaceNode(environment=rng.randrange(nenv)) for _ in range(m)]
+        nodes[rng.randrange(m)].environment = bad_env
+        return RDGraphSpace(nodes=nodes, edges=[])
+
+    candidates = [
+        ("space = <space with an environment index beyond the network's list, same size>", lambda: setattr(a, "space", bad_space("same-size"))),
+        ("space = <space with a bad environment index, other size>", lambda: setattr(a, "space", bad_space("other-size"))),
+        ("space = 'grid'", lambda: setattr(a, "space", "grid")),
+        ("space = None", lambda: setattr(a, "space", None)),
+        ("network = <a dict>", lambda: setattr(a, "network", {"species": []})),
+        ("network = None", lambda: setattr(a, "network", None)),
+        ("state = 5", lambda: setattr(a, "state", 5)),
+        ("state = <UnitArray of times>", lambda: setattr(a, "state", UnitArray([1.0] * (n * nsp), "s"))),
+        ("state = ['1 s', ...]", lambda: setattr(a, "state", ["1 s"] * (n * nsp))),
+        ("chemostats = 1", lambda: setattr(a, "chemostats", 1)),
+        ("chemostats = ['x', ...]", lambda: setattr(a, "chemostats", ["x"] * (n * nsp))),
+        ("units_system = 5", lambda: setattr(a, "units_system", 5)),
+        ("set_state(..., <a time>)", lambda: a.set_state(0, 0, UnitValue(1.0, "s"))),
+        ("set_state(..., 'abc')", lambda: a.set_state(0, 0, "abc")),
+        ("set_chemostat(..., 'x')", lambda: a.set_chemostat(0, 0, "x")),
+        ("set_state(<unknown species>)", lambda: a.set_state("nope", 0, 1.0)),
+        ("set_chemostat(<cell n>)", lambda: a.set_chemostat(0, n, 1)),
+    ]
+    ctx.case(("refusals", idx), nontrivial=True)
+    ctx.count("refusal_histories")
+    rng.shuffle(candidates)
+    for name, fn in candidates[:7]:
+        # a valid write first, so that "unchanged" is not just "still the defaults"
+        s_, c_ = rng.randrange(nsp), rng.randrange(n)
+        if rng.random() < 0.5:
+            cur = ch.get(s_ * n + c_, expected_chem(desc, s_, c_))
+            a.set_chemostat(s_, c_, 1 - cur)
+            ch[s_ * n + c_] = 1 - cur
+            history.append(["set_chemostat", s_, c_, 1 - cur])
+        else:
+            q = gen_quantity(rng, desc["sys"], QTYD)
+            a.set_state(s_, c_, q_real(q, QTYD))
+            st[s_ * n + c_] = q["si"]
+            history.append(["set_state", s_, c_, q.get("text", q["v"])])
+        try:
+            fn()
+            raised = False
+        except Exception as e:  # noqa
+            raised = True
+            history.append(["REFUSED (%s): %s" % (type(e).__name__, name)])
+        if not raised:
+            # accepted on this tree: not a refusal (whether it should be refused is input validation, C20); stop this history
+            ctx.count("refusal_candidates_accepted")
+            return
+        ctx.count("refusals")
+        if not inspect(name):
+            return
+        if rng.random() < 0.5 and not regenerate(name):
+            return
+    regenerate("assignments above")
+
+
 def json_copy(x):
     import copy
     return copy.deepcopy(x)
@@ -939,6 +1068,8 @@ def run(ctx, count=None):
             run_sharing(ctx, desc, i)
         if i % 12 != 11 and (i % 2 == 1 or ctx.tier != "quick"):
             run_copies(ctx, desc, i)
+        if i % 12 != 11 and (i % 3 == 0 or ctx.tier != "quick"):
+            run_refusals(ctx, desc, i)
         if len(batch) >= 250:
             flush()
         if ctx.time_left() < 10:
@@ -994,6 +1125,8 @@ def replay(ctx, rec):
             run_sharing(sink, desc, 0)
         elif case.get("kind") == "copies":
             run_copies(sink, desc, 0)
+        elif case.get("kind") == "refusals":
+            run_refusals(sink, desc, 0)
         else:
             run_system(sink, desc, 0)
     key = rec.get("key")
